@@ -97,7 +97,8 @@ pub fn substr(items: &Vec<&Value>) -> Result<Value, Error> {
         })
         .transpose()?;
 
-    let string_len = string.len();
+    // Indices count characters, not bytes.
+    let string_len = string.chars().count();
 
     let idx_abs: usize = idx.unsigned_abs().try_into().map_err(|e| Error::InvalidArgument {
         value: idx_arg.clone(),
